@@ -156,8 +156,16 @@ def gen_graph(rng, ints=False):
                 feats.add("expr-of-expr")       # needs more than one evaluation round
             numeric.append(nm)                  # later expressions may build on this one
         else:
-            m = rng.randrange(4)
-            if m == 0:
+            m = rng.randrange(5)
+            if m == 4 and (lists or numeric):
+                if lists and rng.random() < 0.7:
+                    tgt = rng.choice(lists)
+                    nodes.append(Node(nm, "badidx", (tgt, [len(resolve_lit(nodes, tgt)) + rng.randrange(0, 3)])))
+                else:
+                    cand = [x.name for x in nodes if x.kind == "lit" and isinstance(x.payload, (int, float)) and not isinstance(x.payload, bool)]
+                    nodes.append(Node(nm, "badidx", (rng.choice(cand), [0])) if cand else Node(nm, "dangling", "nope" + str(i)))
+                feats.add("bad-index")
+            elif m == 0 or m == 4:
                 nodes.append(Node(nm, "dangling", "nope" + str(i)))
             elif m == 1:
                 nodes.append(Node(nm, "self", nm))
@@ -248,6 +256,8 @@ def node_text(x: Node, fmt) -> str:
         return '"' + expr_text(x.payload) + '"'
     if x.kind == "dangling":
         return "$" + x.payload
+    if x.kind == "badidx":       # an index that addresses no element: out of range, or the value is no list
+        return "$" + x.payload[0] + "".join(f"[{i}]" for i in x.payload[1])
     if x.kind in ("self", "cyc"):
         return "$" + x.payload
     if x.kind == "expr-dangling":
@@ -530,6 +540,9 @@ def run(ctx):
     ]
     for nodes in probes:
         cases.append((mk_case(rng, nodes, order=list(range(len(nodes))), placement=["root"] * len(nodes)), {"probe"}))
+    for nodes in ([Node("l", "lit", [3, 5, 8]), Node("d", "badidx", ("l", [5])), Node("ok", "idx", ("l", [1]))],
+                  [Node("q", "lit", 5), Node("f", "badidx", ("q", [0])), Node("k", "ref", "q")]):
+        cases.append((mk_case(rng, nodes, order=list(range(len(nodes))), placement=["root"] * len(nodes)), {"probe", "bad-index", "unresolvable"}))
     for nodes in ([Node("u", "lit", ["m", "kg", "e", "pi"]), Node("a", "idx", ("u", [2])), Node("b", "idx", ("u", [3])), Node("uu", "ref", "u"), Node("c", "idx", ("uu", [2]))],
                   [Node("t", "lit", [["id", "max"], ["sin", "x y"]]), Node("a", "idx", ("t", [0, 0])), Node("b", "idx", ("t", [1, 0])), Node("c", "idx", ("t", [1]))]):
         cases.append((mk_case(rng, nodes, order=list(range(len(nodes))), placement=["root"] * len(nodes)), {"probe", "indexed", "word-list"}))
